@@ -6,6 +6,35 @@ DEFAULT_CAPS = {"quick": (240, 12), "thorough": (1500, 14)}
 
 PROPS = {}
 
+_PUSH_FUNCS = [
+    "<push::instruction::{IntInstruction,FloatInstruction,BoolInstruction} as Instruction<S>>::perform for S = VState (harness state of three real Stacks + output buffer; the impls are generic over S)",
+    "push::instruction::common::{pop,push_value,dup,swap,is_empty,stack_depth,flush}, int::{abs,negate,clamp}, printing::{Print,PrintLn}",
+    "push::push_vm::stack::{Stack::*, HasStack::{not_full,with_push,with_replace}, PushOnto::{push_onto,replace_on}, StackPush, StackDiscard}",
+    "push::error::{Error::{fatal,recoverable,is_fatal,state,error,map_inner_err}, MapInstructionError, IntoState}",
+]
+_PUSH_BOUNDS = ("STEP: every int / float / bool instruction, one harness each, from a pre-state whose three stacks have symbolic depth 0..=3 (0..=4 for Clamp), "
+                "symbolic full-width contents (all i64 incl. extremes, all f64 bit patterns incl. NaN, infinities, signed zeros) and a symbolic maximum >= depth "
+                "(so empty / one short / exactly enough / one below full / full are all inside), output buffer empty or 2 symbolic bytes")
+_PUSH_OUTSIDE = ("whole-program runs (compositional: STEP + DISPATCH + BLOCK + LOOP, composed on paper); stacks deeper than 3 before the step "
+                 "(instructions read at most the top 3 elements plus size/is_full); Power outside the stated operand domain; formatting of arbitrary "
+                 "symbolic numbers (print operands come from a table); pre-states that violate size <= max (not reachable: the invariant is the C03 lemma)")
+for _pid, _a, _what in (("C01", "a01", "outcome, stacks and output equal the reference step"),
+                        ("C02", "a02", "on every error the carried state equals the pre-state in every component"),
+                        ("C03", "a03", "no panic, capacity invariant preserved, only overflow is fatal, step bound")):
+    PROPS[_pid] = {
+        "features": ["pushvm", _a],
+        "markers": ["marker_" + _a],
+        "modules": ["c01_stepgen::", "c01_print::", "c01_exec::", "c01_dispatch::", "c01_loop::"],
+        "stubbing": True,
+        "needs_rand_090": False,
+        "functions": _PUSH_FUNCS,
+        "bounds": {"quick": _PUSH_BOUNDS + "; assertion set: " + _what, "thorough": _PUSH_BOUNDS + "; assertion set: " + _what},
+        "outside": _PUSH_OUTSIDE,
+        "assumptions": ["pre-states satisfy size <= max on every stack (inductive invariant, itself asserted as post-condition under C03)",
+                        "reference step REF (harness/src/push_ref) is validated natively against the repository's own test vectors"],
+        "unclaimed": True,
+    }
+
 PROPS["C04"] = {
     "features": ["c04"],
     "modules": ["c04_stack::"],
